@@ -375,6 +375,9 @@ func runGraph(c *core.Ctx) core.Result {
 	mode := core.Pick(r, []string{"export", "export", "exportto-map", "exportto-slice", "node-ptr", "node-ptr", "node-val", "node-map", "node-slice"})
 	cs := graphCase{Scenario: "graph", Mapper: mapperNames[mapper], Mode: mode}
 	st.Inc("graph:" + mode)
+	if c.Replay {
+		fmt.Printf("--- case --- scenario=graph mode=%s mapper=%s\n", mode, cs.Mapper)
+	}
 	fail := func(monitor, detail, sig string) core.Result {
 		v := &violation{monitor, fmt.Sprintf("mode=%s mapper=%s\n%s\nsource:\n%s", mode, cs.Mapper, detail, core.Trunc(cs.Source, 1500)), sig}
 		return violated(v, cs, jsonKey(cs))
